@@ -18,7 +18,7 @@ from .canon import digest, jsonable
 
 VERIF = os.path.dirname(os.path.dirname(os.path.abspath(__file__)))
 REPO = os.environ.get('PIPESIM_REPO', '/repo')
-OP_TIMEOUT = int(os.environ.get('PIPESIM_OP_TIMEOUT', '150'))
+OP_TIMEOUT = int(os.environ.get('PIPESIM_OP_TIMEOUT', '300'))
 
 
 def derive_seed(verif_seed, prop_id, index):
